@@ -168,6 +168,19 @@ class _BlockRanges:
     self._end_to_start[new_end] = start
 
 
+def _can_disable_bad_return(comment) -> bool:
+  """Whether a structured comment disables bad-return-type errors."""
+  if comment.tool != "pytype":
+    return False
+  for option in comment.data.split():
+    command, _, values = option.partition("=")
+    if command == "disable" and (
+        {"bad-return-type", _ALL_ERRORS} & set(values.split(","))
+    ):
+      return True
+  return False
+
+
 class Director:
   """Holds all of the directive information for a source file."""
 
@@ -271,9 +284,13 @@ class Director:
                 self._filename, comment.line, str(e)
             )
         # Make sure the function range ends at the last "interesting" line.
-        if not isinstance(
-            line_range, parser.Call
-        ) and self._function_ranges.has_end(line_range.end_line):
+        # Only a directive that can silence the implicit-return error may move
+        # the line that error is reported on.
+        if (
+            _can_disable_bad_return(comment)
+            and not isinstance(line_range, parser.Call)
+            and self._function_ranges.has_end(line_range.end_line)
+        ):
           end = line_range.start_line
           self._function_ranges.adjust_end(line_range.end_line, end)
 
